@@ -22,6 +22,7 @@ export CARGO_TARGET_DIR=$H/target
 if ! cargo build --offline --release -p checks --bin "$bin" > $H/build.log 2>&1; then
   echo "MUTANT-RESULT $(basename "$P") $ID build-failed"; grep -E "^error" -A8 $H/build.log | head -30; git -C $WT checkout -q -- .; exit 2
 fi
+if [ "$ID" = "C18" ]; then cargo build --offline --release -p c18log >> $H/build.log 2>&1; export VERIF_C18LOG_BIN=$H/target/release/c18log; fi
 if [ "$ID" = "C01" ]; then cargo build --offline --release -p c01cap >> $H/build.log 2>&1; export VERIF_C01CAP_BIN=$H/target/release/c01cap; fi
 VERIF_ROOT=$H $H/target/release/$bin "$TIER" "$@" > $H/out.log 2>&1; rc=$?
 git -C $WT checkout -q -- .
